@@ -270,6 +270,13 @@ func run(c *core.Ctx) {
 		}
 		exec(c, Case{Kind: "atomic", Single: true, Progs: [][]Op{p0, p1}, Jitter: c.Rng.Uint64()})
 	}
+	if !c.NoModel {
+		if probeRetry == 0 {
+			c.Note("CAS probes sent to the model: in NONE of them did a Store overlap a CompareAndSwap(x,x) in real time, so the model's retry path (failing pointer comparison, Load, retry) was not executed by the Coq check in this run")
+		} else {
+			c.Note(fmt.Sprintf("CAS probes sent to the model: in %d of them a Store really overlapped a CompareAndSwap(x,x); on these the Coq check runs the model's retry path (stat atomic_probe_model_runs_cas_retry_path)", probeRetry))
+		}
+	}
 	// Pool
 	for i := c.N(1500, 20000, 12000); i > 0; i-- {
 		n, ops := 1+c.Rng.Intn(3), 4
@@ -349,6 +356,8 @@ func barrier(ready *int32, n int) {
 const callTimeout = 60 * time.Second
 
 var stuck = map[string]bool{} // "atomic" / "pool"
+
+var probeRetry int // emitted single-outcome probes in which a Store overlapped a CompareAndSwap(x,x)
 
 func family(kind string) string {
 	if kind == "pool" || kind == "poolbulk" {
@@ -589,6 +598,22 @@ func execAtomic[T comparable](c *core.Ctx, cs Case, cd codec[T]) {
 	if cs.Single {
 		c.Count("atomic_single_outcome_probe")
 		c.Nontrivial()
+		// Did a Store of the equal value really overlap a CompareAndSwap(x,x) in time? Then the schedule "Store
+		// between the two steps of atomic.Value.CompareAndSwap" is consistent with the recorded real-time order, so
+		// the Coq side (which evaluates EVERY consistent schedule of a probe) runs the model's failing pointer
+		// comparison, the Load after it and the retry of the loop on this case.
+		retry := false
+		for _, a := range all {
+			for _, b := range all {
+				if a.t != b.t && a.op.K == "C" && a.op.A == a.op.B && b.op.K == "S" && a.inv < b.ret && b.inv < a.ret {
+					retry = true
+				}
+			}
+		}
+		if retry && cd.emit && !c.NoModel {
+			c.Count("atomic_probe_model_runs_cas_retry_path")
+			probeRetry++
+		}
 	}
 	// model: small histories only (the Coq side searches schedules without memoisation). Every call carries its
 	// invocation and response ranks on the global clock: the Coq search respects the real-time order too.
@@ -797,6 +822,16 @@ func execPool(c *core.Ctx, cs Case) {
 		owner, idx int
 	}
 	got := make([][]obs, n)
+	// small histories also go to the Coq model, with the invocation and response rank of every call on a global
+	// clock (the Coq search respects the real-time order). The clock is an atomic counter shared by the goroutines:
+	// it is NOT used in the race tier or in the larger histories, where it would add happens-before edges between
+	// the goroutines and could hide a data race of Get/Put from the race detector.
+	emit := !c.NoModel && n <= 3 && total <= 10
+	var clock int64
+	ranks := make([][][2]int64, n)
+	for t := range ranks {
+		ranks[t] = make([][2]int64, len(cs.Progs[t]))
+	}
 	var fmu sync.Mutex
 	var fails [][2]string
 	fail := func(what, detail string) {
@@ -820,10 +855,19 @@ func execPool(c *core.Ctx, cs Case) {
 						runtime.Gosched()
 					}
 				}
+				stampRet := func() {
+					if emit {
+						ranks[t][i][1] = atomic.AddInt64(&clock, 1)
+					}
+				}
+				if emit {
+					ranks[t][i][0] = atomic.AddInt64(&clock, 1)
+				}
 				switch o.K {
 				case "G":
 					before := atomic.LoadInt64(&newCalls)
 					x := p.Get()
+					stampRet()
 					if x == nil {
 						got[t] = append(got[t], obs{zero: true})
 						held = append(held, nil)
@@ -865,13 +909,16 @@ func execPool(c *core.Ctx, cs Case) {
 						}
 						p.Put(x)
 					}
+					stampRet()
 				case "F":
 					x := &item{owner: t, idx: fresh, state: 1}
 					fresh++
 					p.Put(x)
+					stampRet()
 				case "Z":
 					atomic.AddInt64(&zeroPuts, 1)
 					p.Put(nil)
+					stampRet()
 				}
 			}
 		}(t)
@@ -891,7 +938,7 @@ func execPool(c *core.Ctx, cs Case) {
 	c.CountN("pool_get_new_item", int(statNew))
 	c.CountN("pool_get_reused_item", int(statReused))
 	c.CountN("pool_get_zero", int(zeroGets))
-	if n <= 3 && total <= 10 {
+	if emit {
 		ths := make([]string, n)
 		for t, p := range cs.Progs {
 			ops := make([]string, len(p))
@@ -909,6 +956,7 @@ func execPool(c *core.Ctx, cs Case) {
 				default:
 					ops[i] = "ZPutZero"
 				}
+				ops[i] = core.Pair(ops[i], core.Pair(core.Z64(ranks[t][i][0]), core.Z64(ranks[t][i][1])))
 			}
 			ths[t] = core.List(ops)
 		}
